@@ -89,8 +89,21 @@ def r_hoist_abs_read(prog, case, ex):
     if not executed:
         return list(prog), 0
 
+    def gsucc(k):
+        """inter-procedural successors: into the callee at a callsub, back to every return point at a retsub"""
+        op = prog[k][0]
+        if op == "callsub":
+            return [ref.labels[prog[k][1]]]
+        if op == "retsub":
+            out = []
+            for name in ref.owners(k):
+                if name != "__main__":
+                    out.extend(c + 1 for c, nm in ref.callsites if nm == name and c + 1 < ref.n)
+            return out
+        return ref.local_succ[k]
+
     def in_loop(k):
-        seen, work = set(), list(ref.local_succ[k])
+        seen, work = set(), list(gsucc(k))
         while work:
             x = work.pop()
             if x == k:
@@ -98,7 +111,7 @@ def r_hoist_abs_read(prog, case, ex):
             if x in seen:
                 continue
             seen.add(x)
-            work.extend(ref.local_succ[x])
+            work.extend(gsucc(x))
         return False
 
     if not all(in_loop(pc) for pc in executed):
